@@ -43,6 +43,7 @@ def run(ck, fb):
     r05e(ck, fb)
     r05g(ck, fb)
     r05h(ck, fb)
+    r05i(ck, fb)
     ck.borrow('rules.c08', {'R08b': 'R05f'}, 'membership/addresses of an installed snapshot reach the index file')
 
 
@@ -377,3 +378,34 @@ def r05h(ck, fb, R='R05h'):
                                X.name.split('::')[-1], o.split('::')[-1], f, t.name.split('::')[-1]),
                            'not read after %s' % t.name.split('::')[-1])
     ck.info(R, '%d call sites of a scheduler in a method that also reads the scheduled field' % n)
+
+
+def r05i(ck, fb, R='R05i'):
+    ck.rule(R, 'an acknowledged membership change is made durable by every caller: FileStore answers get_membership_config / get_initial_state from the '
+               'index file, and the index membership is only written when a ClientRequest::Members entry is applied - the ConfigChange entries of '
+               'the Raft core are stored in the log without touching it. Every call of Raft::change_membership must therefore be followed, on the '
+               'continuing path of the same function, by a client_write of ClientRequest::Members (join_node does this; the REST handler '
+               'POST /nacos/v1/raft/change-membership, documented for scaling the cluster, did not)')
+    n = 0
+    for b in sorted(fb.bodies.values(), key=lambda x: x.name):
+        if '::tests::' in b.name:
+            continue
+        cms = b.calls(r'async_raft_ext::Raft::<.*>::change_membership$|Raft::<D, R, N, S>::change_membership$')
+        for s0 in cms:
+            n += 1
+            ck.analysed(b)
+            nxt = b.blocks[s0.bb]['t'].get('t')
+            r = cfg.reach_from(b, [nxt]) if nxt is not None else set()
+            aggs = [i for (i, j, st) in b.aggregates(r'rnacos::raft::store::ClientRequest$', 'Members') if i in r]
+            cw = [c for c in b.calls(r'::client_write$') if c.bb in r]
+            ok = False
+            for a in aggs:
+                ra = cfg.reach_from(b, [a])
+                if any(c.bb in ra or c.bb == a for c in cw):
+                    ok = True
+            ck.require(ok, R, 'change_membership-then-Members:%s' % b.name.replace('::{closure#0}', '').split('rnacos::')[-1], s0.where(),
+                       'Raft::change_membership is acknowledged here without a ClientRequest::Members entry: the index file keeps the old '
+                       'membership. Real binary, 3 nodes: change-membership [1] is acknowledged and node 1 leads alone; after a restart node 1 '
+                       'reports members [1, 2, 3], stays Follower without a leader and refuses every write',
+                       'followed by client_write(ClientRequest::Members)')
+    ck.floor(R, 'callers of Raft::change_membership', n, 2)
